@@ -6,7 +6,8 @@
 EXTENDS Integers, Sequences, FiniteSets, FiniteSetsExt, SequencesExt, TLC, Json, IOUtils
 CONSTANTS CMAX,      \* rectangle corners on {2, 4, .., CMAX}
           MAXR,      \* at most MAXR rectangles per scene
-          GAP        \* minimum separation between two rectangles
+          GAP,       \* minimum separation between two rectangles
+          POLY       \* also write the convex-polygon scenes
 Coord == {c \in 2..CMAX : c % 2 = 0}
 Rects == {<<x1, y1, x2, y2>> \in Coord \X Coord \X Coord \X Coord : x1 < x2 /\ y1 < y2}
 Separated(a, b) == a[3] + GAP <= b[1] \/ b[3] + GAP <= a[1] \/ a[4] + GAP <= b[2] \/ b[4] + GAP <= a[2]
@@ -19,8 +20,22 @@ Scenes3 == {{p[1], p[2], p[3]} : p \in {p \in Rects \X Rects \X Rects : Code(p[1
 Scenes == Scenes1 \cup (IF MAXR >= 2 THEN Scenes2 ELSE {}) \cup (IF MAXR >= 3 THEN Scenes3 ELSE {})
 \* endpoints: the odd lattice (never on a rectangle side), 1 .. CMAX + 1
 Points == {<<x, y>> \in (1..(CMAX + 1)) \X (1..(CMAX + 1)) : x % 2 = 1 /\ y % 2 = 1}
+\* convex polygons for the polyline checks, as positively wound point sequences with their bounding boxes
+RectPoly(r) == << <<r[3], r[2]>>, <<r[3], r[4]>>, <<r[1], r[4]>>, <<r[1], r[2]>> >>
+Tri(r, i) == CASE i = 1 -> << <<r[3], r[2]>>, <<r[3], r[4]>>, <<r[1], r[4]>> >>
+               [] i = 2 -> << <<r[3], r[4]>>, <<r[1], r[4]>>, <<r[1], r[2]>> >>
+               [] i = 3 -> << <<r[3], r[2]>>, <<r[1], r[4]>>, <<r[1], r[2]>> >>
+               [] i = 4 -> << <<r[3], r[2]>>, <<r[3], r[4]>>, <<r[1], r[2]>> >>
+Diamond(r) == LET mx == (r[1] + r[3]) \div 2  my == (r[2] + r[4]) \div 2
+              IN  << <<r[3], my>>, <<mx, r[4]>>, <<r[1], my>>, <<mx, r[2]>> >>
+Convex == {[box |-> r, poly |-> RectPoly(r)] : r \in Rects}
+          \cup {[box |-> r, poly |-> Tri(r, i)] : r \in Rects, i \in 1..4}
+          \cup {[box |-> r, poly |-> Diamond(r)] : r \in {r \in Rects : (r[3] - r[1]) % 4 = 0 /\ (r[4] - r[2]) % 4 = 0}}
+PScenes1 == {{a} : a \in Convex}
+PScenes2 == {{p[1], p[2]} : p \in {p \in Convex \X Convex : Code(p[1].box) < Code(p[2].box) /\ Separated(p[1].box, p[2].box)}}
 VARIABLE done
-Init == /\ JsonSerialize(IOEnv.ROUTEGEN, [scenes |-> SetToSeq({SetToSeq(S) : S \in Scenes}), points |-> SetToSeq(Points)])
+Init == /\ JsonSerialize(IOEnv.ROUTEGEN, [scenes |-> SetToSeq({SetToSeq(S) : S \in Scenes}), points |-> SetToSeq(Points),
+                                          pscenes |-> IF POLY THEN SetToSeq({SetToSeq({a.poly : a \in S}) : S \in PScenes1 \cup (IF MAXR >= 2 THEN PScenes2 ELSE {})}) ELSE <<>>])
         /\ done = Cardinality(Scenes)
 Spec == Init /\ [][UNCHANGED done]_done
 =============================================================================
